@@ -20,7 +20,7 @@ use crate::{
 pub const DEF: PropDef = PropDef {
     id: "C08",
     groups,
-    rule: "the real loop on T in 2..=4 threads, 1..=3 rounds, sample_size 0..=4, representative shapes of every loop path, per-thread distinguishable allocation scripts (optionally only on some threads / in some calls), explicit yields inside user closures, a generated schedule (sparse preemptions / dense random) and optionally a panic plan (one thread or all threads; generator, counter, benchmarked function or a destructor; at occurrence k, i.e. in any round); \
+    rule: "the real loop on T in 2..=4 threads, 1..=3 rounds, sample_size 0..=4 or tuned (two or three tuning rounds before the collecting ones), representative shapes of every loop path, per-thread distinguishable allocation scripts (optionally only on some threads / in some calls), explicit yields inside user closures, a generated schedule (sparse preemptions / dense random) and optionally a panic plan (one thread or all threads; generator, counter, benchmarked function or a destructor; at occurrence k, i.e. in any round); \
            non-trivial = some thread reached a barrier while another thread was still in the previous phase (the barrier ordered something: observed as a thread blocked on the barrier), or a panic plan fired; distinct = distinct (case, realised interleaving).",
     assumptions: &[
         "interleavings are sequentially consistent and chosen at the yield points of the std shim (barrier, pool primitives) and at explicit yields inside the instrumented closures",
@@ -183,7 +183,7 @@ fn role() -> impl Strategy<Value = Role> {
 
 fn case() -> impl Strategy<Value = Case> {
     (
-        (rep_shapes(), 2u8..=4, 1u32..=3, prop_oneof![1 => Just(0u32), 5 => 1u32..=4], prop::bool::weighted(0.1)),
+        (rep_shapes(), 2u8..=4, 1u32..=3, prop_oneof![1 => Just(Some(0u32)), 5 => (1u32..=4).prop_map(Some), 2 => Just(None)], prop::bool::weighted(0.1)),
         (c02::alloc_steps(2), c02::alloc_steps(2), (c02::alloc_steps(2), c02::alloc_masks()), proptest::array::uniform4(prop::bool::weighted(0.25)), 0u8..=2),
         (proptest::option::weighted(0.3, (role(), proptest::option::weighted(0.6, 0u8..=3), 0u32..=10)), pool::schedule(260)),
     )
@@ -191,7 +191,13 @@ fn case() -> impl Strategy<Value = Case> {
             let mut c = LoopCase::basic(entry, input, output);
             c.threads = threads;
             c.sample_count = Some(rounds * threads as u32);
-            c.sample_size = Some(s);
+            c.sample_size = s;
+            if s.is_none() {
+                // Tuned size: two or three tuning rounds (the last one is
+                // kept), then the collecting rounds - every round must be
+                // synchronised the same way.
+                c.costs.call = CostModel::Const(if rounds % 2 == 0 { 60 } else { 40 });
+            }
             c.test_mode = test_mode;
             c.input_counters = input_counters;
             c.yields = yields;
@@ -202,5 +208,5 @@ fn case() -> impl Strategy<Value = Case> {
 }
 
 fn groups(g: &mut Groups) {
-    g.prop("random", 40_000, 300_000, || case(), check_case);
+    g.prop("random", 40_000, 3_600_000, || case(), check_case);
 }
